@@ -21,7 +21,10 @@ RULE = (
     "released by unlock_dir or by drop on every exit. R4 (LS never waits on a build) no function reachable in the call "
     "graph from the veryl-ls binary reaches veryl_cache::Store::open (the blocking open), and no lock_dir call reachable "
     "from it takes a path derived from project_dot_build_path(); the command line's .build lock in veryl::main is taken "
-    "before the command is dispatched and released after it."
+    "before the command is dispatched and released after it. R5 the lock primitive: veryl_path::lock_dir only creates and locks the "
+    "`lock` file, unlock_dir only unlocks it, and no function removes or renames a `lock` file (waiters hold the inode; a fresh file "
+    "would admit a second holder). R6 = C05 R3: atomic_write stages in a unique NamedTempFile in the target's directory, writes, then "
+    "persists (two unsynchronised writers, e.g. the language server and a build saving Veryl.lock, never share a staging file)."
 )
 
 CRATES = None
@@ -150,6 +153,56 @@ def run(world, tier, info, only=None):
     early = [t for bi, t in execs if any(m.reaches(bi, lb) for lb, _ in mlocks)]
     ck.ob("R4", "main-lock-before-dispatch", not early, site(w.fns["veryl::main"]),
           "the .build lock is never taken after a command has run (it is decided before the dispatch)")
+    # ---------------- R5 the lock primitive itself ---------------------------------------------------------------
+    PRIM = {LOCK: r"^std::fs::File::create$|^fs4::.*FileExt>::lock$|^fs4::.*::lock$|FileExt::lock$",
+            UNLOCK: r"^fs4::.*FileExt>::unlock$|^fs4::.*::unlock$|FileExt::unlock$"}
+    FSMUT = re.compile(r"^std::fs::(write|remove_file|remove_dir|remove_dir_all|rename|copy|hard_link|create_dir|create_dir_all)$|^std::fs::File::(create|create_new|options)$|^std::fs::OpenOptions::")
+    for p, allowed in PRIM.items():
+        s5 = w.fns[p]
+        bad = [c["c"] for c in s5["calls"] if FSMUT.search(c["c"] or "") and not re.search(allowed, c["c"] or "")]
+        locks_ = [c["c"] for c in s5["calls"] if re.search(r"FileExt.*::(lock|unlock|try_lock|lock_exclusive)$|fs4::", c["c"] or "")]
+        ck.ob("R5", "primitive:%s/only-locks" % p.split("::")[-1], not bad and bool(locks_), site(s5),
+              "%s touches the file system only to create/lock the `lock` file (%s)" % (p.split("::")[-1], sorted(set(locks_))) if not bad and locks_ else
+              "%s also calls %s: removing or replacing the lock file while others wait on its inode lets a later process lock a fresh file "
+              "and enter the region alongside the waiter" % (p.split("::")[-1], sorted(set(bad))))
+    # nobody deletes or replaces a directory's `lock` file
+    n_rm = 0
+    for p, sm in sorted(w.fns.items()):
+        if sm.get("alias_of") or sm["crate"] not in ("veryl_path", "veryl_metadata", "veryl_std", "veryl_cache", "veryl", "veryl_ls.bin"):
+            continue
+        if not any(re.search(r"^std::fs::(remove_file|rename)$", c["c"] or "") for c in sm["calls"]):
+            continue
+        f5 = Fn(w.mir(p))
+        for bi, t in f5.calls(r"^std::fs::(remove_file|rename)$"):
+            n_rm += 1
+            pv = set()
+            for a in t["args"]:
+                pv |= f5.prov(a, depth=16)
+            hits = [x for x in pv if x[0] == "const" and x[1] == "lock"] + [x for x in pv if x[0] == "named" and str(x[1]).endswith("LOCK_FILE")]
+            ck.ob("R5", "lock-file-never-removed:%s/%s@%d" % (p, t["callee"].split("::")[-1], _ord(f5, f5.calls(r"^std::fs::(remove_file|rename)$"), bi)), not hits, site(sm, t["l"]),
+                  "%s does not touch a `lock` file" % t["callee"].split("::")[-1] if not hits else "a `lock` file is removed/renamed here")
+    # ---------------- R6 = C05 R3: atomic_write's shape (unique temp in the target's dir, write, then persist) ----------
+    import c05
+    import core
+    got = []
+
+    class Cap(core.Check):
+        def finish(self, *a, **k):
+            got.append(self)
+            return 0
+    old = c05.Check
+    c05.Check = Cap
+    try:
+        c05.run(w, tier, {}, None)
+    finally:
+        c05.Check = old
+    n6 = 0
+    for sub in got:
+        for o in sub.obs:
+            if o["rule"] == "R3":
+                n6 += 1
+                ck.obs.append({"rule": "R6", "key": o["key"].replace("C05.R3/", "C30.R6/"), "site": o["site"], "verdict": o["verdict"], "detail": o["detail"]})
+    ck.floor("R6", "atomic_write obligations shared with C05 R3", n6, 4)
     ck.analysed = {"lock_taking_functions": L, "mutations_checked": n_mut, "exists_decisions_checked": n_exists,
                    "ls_functions": len(ls_roots), "reachable_from_ls": len(reach), "ls_reachable_lock_sites": n_ls_locks}
     return ck.finish(info)
